@@ -44,6 +44,7 @@ func c18GenCfg(r *rand.Rand) *c18Cfg {
 			}
 		}
 	}
+	c.CtlEngineDO = c18P(r, 0.12)
 	if c18P(r, 0.3) {
 		// response-body inspection switched for the transaction by a ctl (as late as the response-headers phase)
 		c.CtlResp = c18Pick(r, "access=On", "access=On", "access=Off", "force", "force")
